@@ -3,7 +3,9 @@
 package dig
 
 import (
+	"errors"
 	"reflect"
+	"strconv"
 	"time"
 
 	"go.uber.org/dig/internal/digclock"
@@ -40,4 +42,45 @@ func VerifResultAttributes(t reflect.Type, name, group string) string {
 
 func VerifGroupAttributes(t reflect.Type, name string, errType int) string {
 	return (&dot.Group{Type: t, Name: name, ErrorType: dot.ErrorType(errType)}).Attributes()
+}
+
+// verifErrClass names the kind of a validation error: "" none, "groupOpt" an
+// invalid group option, "invalid" any other invalid-input error, "other".
+func verifErrClass(err error) string {
+	var g errInvalidGroupOption
+	var inv errInvalidInput
+	switch {
+	case err == nil:
+		return ""
+	case errors.As(err, &g):
+		return "groupOpt"
+	case errors.As(err, &inv):
+		return "invalid"
+	}
+	return "other"
+}
+
+// VerifParseGroup runs parseGroupString on the value of a group tag or of dig.Group.
+func VerifParseGroup(s string) (name string, flatten, soft bool, errClass string) {
+	g, err := parseGroupString(s)
+	return g.Name, g.Flatten, g.Soft, verifErrClass(err)
+}
+
+// VerifBoolTag runs isFieldOptional (tag "optional") or isIgnoreUnexportedSet
+// (tag "ignore-unexported") on a field carrying that tag with value v.
+func VerifBoolTag(tag, v string) (bool, string) {
+	f := reflect.StructField{Name: "F", Tag: reflect.StructTag(tag + ":" + strconv.Quote(v))}
+	var b bool
+	var err error
+	if tag == _ignoreUnexportedTag {
+		b, err = isIgnoreUnexportedSet(f)
+	} else {
+		b, err = isFieldOptional(f)
+	}
+	return b, verifErrClass(err)
+}
+
+// VerifValidateNameGroup runs provideOptions.Validate for a name and a group.
+func VerifValidateNameGroup(name, group string) string {
+	return verifErrClass((&provideOptions{Name: name, Group: group}).Validate())
 }
